@@ -426,6 +426,52 @@ func localType(typ types.Type, visited map[types.Type]bool) *types.Named {
 	return nil
 }
 
+// unexportedOf returns a named type that writing typ needs and that is an unexported type of another package than own, or nil.
+func unexportedOf(typ types.Type, own *types.Package) *types.Named {
+	switch t := types.Unalias(typ).(type) {
+	case *types.Named:
+		if obj := t.Obj(); !obj.Exported() && obj.Pkg() != nil && obj.Pkg() != own {
+			return t
+		}
+		for i := 0; i < t.TypeArgs().Len(); i++ {
+			if hidden := unexportedOf(t.TypeArgs().At(i), own); hidden != nil {
+				return hidden
+			}
+		}
+	case *types.Pointer:
+		return unexportedOf(t.Elem(), own)
+	case *types.Slice:
+		return unexportedOf(t.Elem(), own)
+	case *types.Array:
+		return unexportedOf(t.Elem(), own)
+	case *types.Chan:
+		return unexportedOf(t.Elem(), own)
+	case *types.Map:
+		if hidden := unexportedOf(t.Key(), own); hidden != nil {
+			return hidden
+		}
+		return unexportedOf(t.Elem(), own)
+	case *types.Struct:
+		for i := 0; i < t.NumFields(); i++ {
+			if hidden := unexportedOf(t.Field(i).Type(), own); hidden != nil {
+				return hidden
+			}
+		}
+	case *types.Tuple:
+		for i := 0; i < t.Len(); i++ {
+			if hidden := unexportedOf(t.At(i).Type(), own); hidden != nil {
+				return hidden
+			}
+		}
+	case *types.Signature:
+		if hidden := unexportedOf(t.Params(), own); hidden != nil {
+			return hidden
+		}
+		return unexportedOf(t.Results(), own)
+	}
+	return nil
+}
+
 // mentionsTypeParam returns whether a type parameter of a generic function or type is part of typ.
 func mentionsTypeParam(typ types.Type, visited map[types.Type]bool) bool {
 	if typ == nil || visited[typ] {
@@ -532,6 +578,12 @@ func (pkg *pkg) Generate() (bool, error) {
 					// A call on such a type can be served by a function for a type of the package that it is assignable to; its own function cannot be written.
 					if local := localType(typ, make(map[types.Type]bool)); local != nil {
 						return false, fmt.Errorf("Generator Error: %s: a function for the type %s cannot be generated: the type %s is declared inside a function and has no name outside of it", plugin.Name(), typ, local.Obj().Name())
+					}
+				}
+				for _, typ := range typs {
+					// Neither can a function whose parameter type needs the name of an unexported type of another package.
+					if hidden := unexportedOf(typ, pkg.info.Pkg); hidden != nil {
+						return false, fmt.Errorf("Generator Error: %s: a function for the type %s cannot be generated: the type %s is not exported by package %s", plugin.Name(), typ, hidden.Obj().Name(), hidden.Obj().Pkg().Path())
 					}
 				}
 				if err := g.Generate(typs); err != nil {
